@@ -129,6 +129,7 @@ type Case struct {
 	Expect  []Node `json:"expect,omitempty"` // when set: the exact content of the destination after this call (relative paths)
 	ZArg    string `json:"zarg,omitempty"`   // roundtrip / zipfile: the path string handed to ZipDir / ZipFile ("%S" = sandbox)
 	ZCwd    string `json:"zcwd,omitempty"`   // working directory for that call
+	DRel    string `json:"drel,omitempty"`   // the destination's real name inside the sandbox when it is not "dest" (names with glob metacharacters)
 	Cut     int    `json:"cut,omitempty"`    // untar: the stream is cut after this many bytes (stored +1)
 	ZSeen   []Ent  `json:"zseen,omitempty"`  // tzround: the zip entries TarZipFile was given (Seen = the tar entries it produced)
 	Crash   string `json:"crash,omitempty"`
@@ -657,6 +658,23 @@ func round3Cases(add func(Case), next func() int) {
 		add(Case{Stream: "bslash", Op: "unzip", Dest: "%S/dest", Cwd: "/", Umask: 0o22, Setup: setups[1], Entries: es})
 	}
 
+	// destinations whose NAME holds glob metacharacters, beside siblings such a pattern would match: the
+	// caller's path is a path, never a pattern; nothing beside the destination may change (clear=true!)
+	for _, g := range [][2]string{{"d[1]", "d1"}, {"v?", "v2"}, {"c*", "c-prod"}, {"a\\b", "ab"}, {"[a-c]x", "bx"}, {"d[", "d"}, {"p[1]/dest", "p1/dest"}, {"*", "zz"}} {
+		su := []Node{{P: g[0], D: true, M: 0o755}, {P: g[0] + "/old.txt", M: 0o640, C: "old"}, {P: g[0] + "/sub", D: true, M: 0o750}, {P: g[0] + "/sub/o", M: 0o600, C: "o"},
+			{P: g[1], D: true, M: 0o755}, {P: g[1] + "/precious.txt", M: 0o644, C: "precious"}, {P: g[1] + "/keep", D: true, M: 0o700}, {P: g[1] + "/keep/inner.txt", M: 0o600, C: "inner"}}
+		for _, form := range [][2]string{{"%S/" + g[0], "/"}, {g[0], "%S"}, {"./" + g[0] + "/", "%S"}} {
+			for _, cl := range []bool{true, false} {
+				add(Case{Stream: "globdest", Op: "unzip", DRel: g[0], Dest: form[0], Cwd: form[1], Umask: 0o22, Clear: cl, Setup: su, Entries: benign})
+			}
+			add(Case{Stream: "globdest", Op: "untar", DRel: g[0], Dest: form[0], Cwd: form[1], Umask: 0o22, Setup: su, Entries: benign})
+		}
+		add(Case{Stream: "globdest", Op: "unzip", DRel: g[0], Dest: "%S/" + g[0], Cwd: "/", Umask: 0o22, Clear: true, Setup: su, Entries: hostile})
+		add(Case{Stream: "globdest", Op: "firstfile", Via: "copyout", Dest: "%S/" + g[0] + "/out.bin", Cwd: "/", Umask: 0o22, Setup: su, Entries: benign})
+		add(Case{Stream: "globdest", Op: "roundtrip", DRel: g[0], Dest: "%S/" + g[0], Cwd: "/", Umask: 0o22, Clear: true, Setup: su,
+			Tree: []Node{{P: "", D: true, M: 0o755}, {P: "n", M: 0o644, C: "new"}}})
+	}
+
 	// clear=true for every spelling of the destination, over an absent, a populated and a non-directory destination
 	for _, df := range destForms {
 		for si, su := range [][]Node{setups[0], setups[2], destIsFile} {
@@ -1047,6 +1065,9 @@ func runCase(c *Case, root string, chrooted bool) {
 	c.Cwd = filepath.Clean(cwd)
 	c.Dest = dest
 	c.DestAbs = sb + "/dest"
+	if c.DRel != "" {
+		c.DestAbs = sb + "/" + c.DRel
+	}
 	if c.Op == "firstfile" && dest != "" {
 		c.DestAbs = filepath.Clean(dest)
 	}
